@@ -19,6 +19,8 @@ pub struct Opts {
     pub division: bool,
     /// inject run-time faults (division by zero, overflow, READ past DATA, zero STEP)
     pub faults: bool,
+    /// GOTO out of loops / blocks to a label after the enclosing top-level statement, EXIT SUB/FUNCTION inside loops
+    pub jumps_out: bool,
 }
 
 impl Default for Opts {
@@ -37,6 +39,7 @@ impl Default for Opts {
             select: true,
             division: true,
             faults: false,
+            jumps_out: true,
         }
     }
 }
@@ -63,6 +66,8 @@ pub struct ProgGen<'a> {
     data_items: Vec<(Ty, String)>,
     data_read: usize,
     loop_depth: u32,
+    pending_labels: Vec<String>,
+    cur_sub_kw: &'static str,
     pub features: Vec<&'static str>,
 }
 
@@ -100,6 +105,8 @@ impl<'a> ProgGen<'a> {
             data_items: vec![],
             data_read: 0,
             loop_depth: 0,
+            pending_labels: vec![],
+            cur_sub_kw: "",
             features: vec![],
         }
     }
@@ -197,6 +204,22 @@ impl<'a> ProgGen<'a> {
         format!("{} + {}", self.str_expr(depth - 1), self.str_expr(depth - 1))
     }
 
+    /// a string expression mentioning at most one variable (so repeated execution grows a
+    /// string linearly, never exponentially)
+    pub fn str_expr_linear(&mut self) -> String {
+        let mut parts = vec![];
+        let n = self.rng.range(1, 3);
+        let var_at = self.rng.range(0, 3);
+        for k in 0..n {
+            if k == var_at {
+                parts.push(self.var(Ty::Str));
+            } else {
+                parts.push(self.lit(Ty::Str));
+            }
+        }
+        parts.join(" + ")
+    }
+
     pub fn expr(&mut self, t: Ty, depth: u32) -> String {
         if t == Ty::Str { self.str_expr(depth) } else { self.num_expr(t, depth) }
     }
@@ -259,7 +282,7 @@ impl<'a> ProgGen<'a> {
             return self.print_stmt(out);
         }
         let src_t = if t == Ty::Str { Ty::Str } else { self.num_tys() };
-        let e = self.expr(src_t, 2);
+        let e = if t == Ty::Str { self.str_expr_linear() } else { self.expr(src_t, 2) };
         self.emit(out, format!("{} = {}", v, e));
     }
 
@@ -276,7 +299,27 @@ impl<'a> ProgGen<'a> {
         lines.into_iter().map(|l| format!("  {}", l)).collect()
     }
 
+    fn flush_labels(&mut self, out: &mut Vec<String>) {
+        for l in std::mem::take(&mut self.pending_labels) {
+            out.push(format!("{}:", l));
+        }
+    }
+
     pub fn stmt(&mut self, out: &mut Vec<String>, depth: u32) {
+        if self.opts.jumps_out && depth < self.opts.max_depth && self.rng.chance(1, 14) {
+            // leave the enclosing block(s) / loop(s) by a jump
+            let c = self.cond(0);
+            if self.in_sub && self.loop_depth > 0 && self.rng.chance(1, 2) {
+                self.feat("exit-sub-in-loop");
+                out.push(format!("IF {} THEN EXIT {}", c, self.cur_sub_kw));
+            } else if !self.in_sub || depth < 1 {
+                self.feat(if self.loop_depth > 0 { "goto-out-of-loop" } else { "goto-out-of-block" });
+                let l = self.fresh_name("Jo");
+                out.push(format!("IF {} THEN GOTO {}", c, l));
+                self.pending_labels.push(l);
+            }
+            return;
+        }
         let choice = self.rng.below(if depth > 0 { 20 } else { 8 });
         match choice {
             0..=2 => self.print_stmt(out),
@@ -593,6 +636,7 @@ impl<'a> ProgGen<'a> {
         for _ in 0..n {
             let d = self.opts.max_depth;
             self.stmt(&mut main, d);
+            self.flush_labels(&mut main);
             if self.opts.faults && self.rng.chance(1, 12) {
                 self.feat("fault");
                 let f = match self.rng.below(4) {
@@ -655,13 +699,15 @@ impl<'a> ProgGen<'a> {
             }
             for (i, t) in info.params.iter().enumerate() {
                 if self.rng.chance(1, 2) {
-                    let e = self.expr(*t, 1);
+                    let e = if *t == Ty::Str { self.str_expr_linear() } else { self.expr(*t, 1) };
                     body.push(format!("P{}{} = {}", i, suffix(*t), e));
                 }
             }
             let n = self.rng.range(1, 3);
+            self.cur_sub_kw = kw;
             for _ in 0..n {
                 self.stmt(&mut body, 1);
+                self.flush_labels(&mut body);
             }
             if info.is_function && self.rng.chance(4, 5) {
                 let e = self.num_expr(info.ret, 1);
